@@ -50,6 +50,7 @@ type Expr struct {
 	Binders []Binder
 	Typ     *TypeExpr
 	Pos     int
+	Pats    [][]*Expr // quantifier triggers: forall i int {p1, p2}{p3} :: body
 }
 
 func (e *Expr) String() string {
@@ -134,7 +135,7 @@ func lexSpec(src string) ([]stok, error) {
 			if matched {
 				continue
 			}
-			if strings.ContainsRune("+-*/%<>!()[].,:&|", c) {
+			if strings.ContainsRune("+-*/%<>!()[].,:&|{}", c) {
 				toks = append(toks, stok{"op", string(c), i})
 				i++
 				continue
@@ -245,9 +246,21 @@ func (ps *specParser) expr() *Expr {
 				break
 			}
 		}
+		var pats [][]*Expr
+		for ps.accept("{") {
+			var grp []*Expr
+			for {
+				grp = append(grp, ps.iff())
+				if !ps.accept(",") {
+					break
+				}
+			}
+			ps.expect("}")
+			pats = append(pats, grp)
+		}
 		ps.expect("::")
 		body := ps.expr()
-		return &Expr{Op: t.s, Binders: bs, Args: []*Expr{body}, Pos: t.pos}
+		return &Expr{Op: t.s, Binders: bs, Args: []*Expr{body}, Pos: t.pos, Pats: pats}
 	}
 	return ps.iff()
 }
